@@ -577,7 +577,13 @@ def run_c01(ctx, tier=None, seed=None):
     seed = ctx.seed if seed is None else seed
     t = load_table()
     n = 115 * 115 if tier == 'thorough' else 600
-    npairs, ninter = probes.gen_c01(t, seed, n, os.path.join(HARNESS, 'src', 'gen', 'probe01_gen.rs'))
+    roots = None
+    if cargo_build(ctx, 'fl', []):
+        rlib, deps = probes.find_rlib('fl')
+        if rlib:
+            roots = probes.accepted_roots(t, rlib, deps, os.path.join(VERIF, 'build', 'probes01'))
+            ctx.extra['root_calls_accepted_by_rustc'] = len(roots)
+    npairs, ninter = probes.gen_c01(t, seed, n, os.path.join(HARNESS, 'src', 'gen', 'probe01_gen.rs'), roots)
     ctx.extra['pairs_probed'] = npairs
     ctx.extra['interchangeability_bindings_type_checked'] = ninter
     from main import _built
